@@ -52,7 +52,7 @@ const (
 	kEth     = 3 // fdbased over a socketpair, resolution required
 )
 
-const wt = 400 * time.Millisecond
+const wt = 2 * time.Second // upper bound of waits that end as soon as the expected frame arrives (generous: the machine may be loaded)
 
 // env: one stack with one NIC and one peer.
 type env struct {
